@@ -6,3 +6,5 @@ import RenetVerif.Lemmas.SrcEquiv.Replay
 import RenetVerif.Lemmas.SrcEquiv.Prefix
 import RenetVerif.Lemmas.SrcEquiv.Slice
 import RenetVerif.Lemmas.SrcEquiv.Packet
+import RenetVerif.Lemmas.SrcEquiv.Acks
+import RenetVerif.Lemmas.SrcEquiv.TokenTable
